@@ -428,15 +428,9 @@ class CSSPageRule(cssrule.CSSRuleRules):
             # done or error
             return
 
-        # check hierarchy
-        if (
-            isinstance(rule, cssutils.css.CSSCharsetRule)
-            or isinstance(rule, cssutils.css.CSSFontFaceRule)
-            or isinstance(rule, cssutils.css.CSSImportRule)
-            or isinstance(rule, cssutils.css.CSSNamespaceRule)
-            or isinstance(rule, CSSPageRule)
-            or isinstance(rule, cssutils.css.CSSMediaRule)
-        ):
+        # check hierarchy: cssRules contains MarginRule objects only (comments
+        # and unknown @rules of an @page text are kept in its style)
+        if not isinstance(rule, MarginRule):
             self._log.error(
                 '%s: This type of rule is not allowed here: %s'
                 % (self.__class__.__name__, rule.cssText),
